@@ -168,7 +168,10 @@ def run_case(case):
                 for t in threads:
                     t.join(3)
                 if RE.state != "paused":
-                    problems.append(("harness-pause-did-not-land", f"state {RE.state}, call {r0[0]}"))
+                    # the helper's request_pause came too early / too late on a loaded machine: history not produced
+                    out.append(R("skip", f"{shape}|{cls}|pause-did-not-land", False, detail=f"state {RE.state}, call {r0[0]}"))
+                    h.close()
+                    continue
                 else:
                     h.log.append(("helper", "remove", "begin"))
                     RE.remove_suspender(sus)
@@ -234,6 +237,17 @@ def run_case(case):
             begin = next((j for j, e in enumerate(log) if e[0] == "helper" and e[1] == "remove" and e[2] == "begin"), None)
             if plan_msgs and begin is not None and plan_msgs[0][0] < begin:
                 problems.append(("plan-ran-before-remove", f"first plan message at log {plan_msgs[0][0]}, removal at {begin}"))
+        overtaken = False
+        if shape in ("gate-release", "gate-remove", "two-gates") and not problems:
+            lab0 = "remove" if shape == "gate-remove" else ("release-first" if shape == "two-gates" else "release")
+            b0 = next((j for j, e in enumerate(log) if e[0] == "helper" and e[1] == lab0 and e[2] == "begin"), None)
+            if b0 is not None and (not msgs or b0 < msgs[0][0]):
+                # on a loaded machine the helper thread acted before the engine had looked at its suspenders: the history
+                # that was meant to be judged did not happen (wall-clock artefact, not a verdict)
+                overtaken = True
+        if overtaken:
+            out.append(R("skip", f"{shape}|{cls}|overtaken", False, detail="helper thread ran before the call started"))
+            continue
         if shape in ("gate-release", "gate-remove", "two-gates") and not problems:
             if not msgs or msgs[0][1].command != "wait_for":
                 problems.append(("tripped-suspender-did-not-gate-the-start", f"first message: {msgs[0][1].command if msgs else None}"))
